@@ -296,6 +296,40 @@ for idx in range(N_CTOR + N_DECO + N_INV + 44, N_CTOR + N_DECO + N_INV + 54):
     pir, pgo = encode_params(idx, pl)
     entries.append(dict(idx=idx, p=pir, r=rir, err=R.random() < 0.8, pgo=pgo, rgo=rgo, invoke=False, kind=kind))
 
+# Appended later still (indices >= 284): functions whose error result is
+# declared as the concrete type *HErrPtr (such a function always fails).
+for idx in range(N_CTOR + N_DECO + N_INV + 54, N_CTOR + N_DECO + N_INV + 62):
+    kind = "ctor" if idx < N_CTOR + N_DECO + N_INV + 60 else "deco"
+    if kind == "ctor":
+        pl = mk_params(R.choice([0, 1, 1, 2]))
+        pk = keyset_params(pl)
+        while True:
+            mark = len(structs)
+            rir, rgo = mk_results(idx, R.choice([1, 1, 2]))
+            rk = set()
+            dup = [False]
+            def walk(rs):
+                for r in rs:
+                    if r.get("isobj"):
+                        walk(r["obj"])
+                    else:
+                        k = (r["t"], r.get("name", ""), r.get("group", ""))
+                        if k in rk and not k[2]:
+                            dup[0] = True
+                        rk.add(k)
+            walk(rir)
+            if not (rk & pk) and not dup[0]:
+                break
+            del structs[mark:]
+        pir, pgo = encode_params(idx, pl)
+    else:
+        t = R.choice(TYPES)
+        k = dict(t=t)
+        pl = [dict(t=t)] + mk_params(R.choice([0, 1]), allow_group=False)
+        pir, pgo = encode_params(idx, pl)
+        rir, rgo = [rleaf(k)], [GO[t]]
+    entries.append(dict(idx=idx, p=pir, r=rir, err=True, errt="ptr", pgo=pgo, rgo=rgo, invoke=False, kind=kind))
+
 out = []
 out.append("// Code generated by /verif/tools/genbank.py; DO NOT EDIT.\n")
 out.append("package harness\n")
@@ -310,7 +344,7 @@ out.append("\nvar _ = dig.In{}\n\n")
 for e in entries:
     i = e["idx"]
     args = ", ".join(f"a{k} {t}" for k, t in enumerate(e["pgo"]))
-    rets = list(e["rgo"]) + (["error"] if e["err"] else [])
+    rets = list(e["rgo"]) + ((["*HErrPtr"] if e.get("errt") == "ptr" else ["error"]) if e["err"] else [])
     if e.get("errat"):
         rets = list(e["rgo"])
         rets.insert(e["errat"] - 1, "error")
@@ -329,6 +363,9 @@ for e in entries:
             if t == "error":
                 body += f"\t\te{k}, _ := out[{k}].Interface().(error)\n"
                 conv.append(f"e{k}")
+            elif t == "*HErrPtr":
+                body += f"\t\te{k}, _ := out[{k}].Interface().(*HErrPtr)\n"
+                conv.append(f"e{k}")
             elif t == "I0":
                 body += f"\t\tv{k}, _ := out[{k}].Interface().(I0)\n"
                 conv.append(f"v{k}")
@@ -342,7 +379,7 @@ out.append("var bankFactories = []func(rt *RT, f *Fn) interface{}{\n")
 for e in entries:
     out.append(f"\tbank{e['idx']},\n")
 out.append("}\n\n")
-specs = [dict(p=e["p"], r=e["r"], err=e["err"], errat=e.get("errat", 0), err2=bool(e.get("err2")), invoke=e["invoke"], kind=e["kind"]) for e in entries]
+specs = [dict(p=e["p"], r=e["r"], err=e["err"], errat=e.get("errat", 0), err2=bool(e.get("err2")), errt=e.get("errt", ""), invoke=e["invoke"], kind=e["kind"]) for e in entries]
 out.append("// bankSpecsJSON describes the signature of every bank entry in IR form.\n")
 out.append("const bankSpecsJSON = `" + json.dumps(specs) + "`\n")
 open("/verif/harness/bank_gen.go", "w").write("".join(out))
